@@ -75,7 +75,8 @@ f("C08-F14", "GQL: NOT binds tighter than comparison: NOT a < b is parsed as (NO
   {"graph": "(:Q{uid:35})", "query": "MATCH (n0) WHERE NOT n0.uid < 0 RETURN n0.uid AS c0", "languages": ["gql"], "expected": "[[35]]", "observed": "[]"})
 f("C08-F15", "a range predicate directly over a node scan is served by find_nodes_in_range, which compares same-kind values only: Int vs Float never matches (and booleans are ordered)",
   "crates/grafeo-engine/src/query/planner.rs:1194-1288 (try_plan_filter_with_range_index, used without any index); crates/grafeo-core/src/graph/lpg/store.rs:34-42 (compare_values_for_range)",
-  {"graph": "(:P:T{uid:10,k:4.5})", "query": "MATCH (n0) WHERE n0.k > 1 RETURN n0.uid AS c0", "languages": ["gql", "cypher", "gremlin: g.V().has('k', gt(1))", "graphql"], "expected": "[[10]]", "observed": "[]"})
+  {"graph": "(:P:T{uid:10,k:4.5})", "query": "MATCH (n0) WHERE n0.k > 1 RETURN n0.uid AS c0", "languages": ["gql", "cypher", "gremlin: g.V().has('k', gt(1))", "graphql"], "expected": "[[10]]", "observed": "[]",
+   "matrix_cells": "the range-pair matrix of C08 (c08.rs between_matrix, 3072 cells on every run) attributes to this finding exactly the cells whose predicate is a BETWEEN pair served by the range path (patterns scan, label_scan, below_expand; lower and upper bound in either order and spelling) — 576 cells: with int or float bounds the values of the other numeric kind inside the range are lost, with mixed bounds nothing matches; counter between_matrix.explained_by.C08-F15"})
 f("C08-F16", "an edge variable that passes through ORDER BY / SKIP / LIMIT (GQL) or a WITH (Cypher) is re-typed as a node column: e.prop then reads the property of the node whose id equals the edge id",
   "crates/grafeo-engine/src/query/planner.rs:1445-1448 (plan_sort: pass-through columns typed LogicalType::Node), :1394-1408 (plan_limit/plan_skip: schema Any; limit.rs rebuilds the chunk it cuts with push_value), :867 (plan_project: a passed-through variable is typed Node)",
   {"graph": "(:Q{uid:27}) with self-loop {uid:1000}", "query": "MATCH (n0)-[e0]->(n1) RETURN e0.uid AS c0 ORDER BY e0.uid", "languages": ["gql", "cypher: MATCH (n0)-[e0]->(n1) WITH n0, n1, e0 ORDER BY e0.uid RETURN e0.uid AS c0"],
